@@ -6,24 +6,55 @@ package bodies
 import (
 	"fmt"
 	"hash/crc32"
+	"sync"
+)
+
+const hexd = "0123456789abcdef"
+
+var (
+	cacheMu sync.Mutex
+	cache   = map[[2]int][]byte{}
 )
 
 const Block = 16
 
-// blockAt renders block number i of body (key, ver).
-func blockAt(key, ver int, i int64) []byte {
-	s := fmt.Sprintf("%02x%02x%08x", key&0xff, ver&0xff, uint32(i))
-	c := crc32.ChecksumIEEE([]byte(s)) & 0xffff
-	return []byte(fmt.Sprintf("%s%04x", s, c))
+// blockAt renders block number i of body (key, ver) into dst[0:16].
+func blockAt(dst []byte, key, ver int, i int64) {
+	dst[0], dst[1] = hexd[(key>>4)&0xf], hexd[key&0xf]
+	dst[2], dst[3] = hexd[(ver>>4)&0xf], hexd[ver&0xf]
+	u := uint32(i)
+	for j := 0; j < 8; j++ {
+		dst[4+j] = hexd[(u>>(28-4*uint(j)))&0xf]
+	}
+	c := crc32.ChecksumIEEE(dst[:12]) & 0xffff
+	for j := 0; j < 4; j++ {
+		dst[12+j] = hexd[(c>>(12-4*uint(j)))&0xf]
+	}
 }
 
 // Make returns the body (key, ver) of exactly size bytes (the last block may be cut short).
+// The returned slice is a fresh copy.
 func Make(key, ver int, size int64) []byte {
-	out := make([]byte, 0, size+Block)
-	for i := int64(0); int64(len(out)) < size; i++ {
-		out = append(out, blockAt(key, ver, i)...)
+	cacheMu.Lock()
+	defer cacheMu.Unlock()
+	id := [2]int{key, ver}
+	cur := cache[id]
+	if int64(len(cur)) < size {
+		n := (size + Block - 1) / Block
+		buf := make([]byte, n*Block)
+		copy(buf, cur)
+		for i := int64(len(cur) / Block); i < n; i++ {
+			blockAt(buf[i*Block:], key, ver, i)
+		}
+		cur = buf
+		if len(cache) > 64 {
+			cache = map[[2]int][]byte{}
+		}
+		cache[id] = cur
 	}
-	return out[:size]
+	out := make([]byte, size)
+	copy(out, cur[:size])
+	return out
 }
 
 // Ident describes what a byte slice is.
